@@ -10,8 +10,8 @@ def device_kwargs(rng, n_grid=None):
     r_e = float(10 ** rng.uniform(np.log10(4e-5), np.log10(4e-4)))
     # stay well below the virtual-cathode perveance limit
     perv = current / e_kin ** 1.5
-    if perv > 4e-6:
-        current = 4e-6 * e_kin ** 1.5
+    if perv > 1.5e-6:   # stay well below the virtual-cathode (perveance) limit, beyond it the beam potential is NaN
+        current = 1.5e-6 * e_kin ** 1.5
     return dict(current=current, e_kin=e_kin, r_e=r_e, v_ax=float(rng.uniform(20, 800)), b_ax=float(rng.uniform(0.5, 5)),
                 r_dt=float(r_e * 10 ** rng.uniform(np.log10(8), np.log10(100))), length=float(rng.uniform(0.05, 1.0)),
                 n_grid=int(n_grid or rng.choice([60, 120, 200])))
